@@ -123,6 +123,8 @@ class _Op(Contract):
     bounded_driver = {"driver": "c14_sequences", "inputs": {}}
 
     def witness(self, o):
+        if "earlier algorithm" in o.oid:
+            return {"driver": "c15_gating", "inputs": {"trials": 40}}
         d = {"driver": "c14_sequences", "inputs": {"ignore_T": not (".T=" in o.oid or ".Ts[" in o.oid)}}
         return d
 
@@ -270,6 +272,11 @@ class single_add_algorithms(_Op):
     def setup(self, c):
         o = single_setup(c)
         old = algo_stub("old")
+        # an algorithm added earlier is bound to the data / sampling frequency current THEN (e.g. before a decimation)
+        self.old_binding = {"data": data_array("data_when_old_was_added"), "fs": S.real("fs_when_old_was_added", pos=True),
+                            "dt": S.real("dt_when_old_was_added", pos=True)}
+        old.fields.update(self.old_binding)
+        self.old = old
         o.fields["algorithms"] = {"old": old}
         self.remember(c, o)
         self.algs = [algo_stub("a"), algo_stub("b")]
@@ -290,6 +297,15 @@ class single_add_algorithms(_Op):
             finally:
                 c.numpy_mode -= 1
         c.oblige("post", "data-unchanged", Q["data"] is self._objs["data"])
+        # isolation (C15): algorithms registered earlier keep the data and sampling frequency bound when THEY were added
+        oldQ = Q["algorithms"].get("old")
+        c.oblige("frame", "earlier algorithm is the same object", oldQ is self.old)
+        if oldQ is not None:
+            c.oblige("frame", "earlier algorithm keeps its data binding", oldQ.fields.get("data") is self.old_binding["data"])
+            c.oblige("frame", "earlier algorithm keeps its fs", sym.same(oldQ.fields.get("fs"), self.old_binding["fs"]))
+            c.oblige("frame", "earlier algorithm keeps its dt", sym.same(oldQ.fields.get("dt"), self.old_binding["dt"]))
+            c.oblige("frame", "earlier algorithm keeps its result and parameters",
+                     oldQ.fields.get("result") is None and oldQ.fields.get("run_params") is self.old.fields["run_params"])
 
 
 # ----------------------------------------------------------------------------------
